@@ -61,6 +61,12 @@ ALGOS = ["Borda", "Copeland", "BioConsert", "KwikSortRandom", "PickAPerm"]
 
 
 # ---------------------------------------------------------------------------------------------------------------------
+def passthrough(e):
+    """The runner's per-case alarm (CaseTimeout) must never be taken for an exception of the code under test."""
+    if type(e).__name__ == "CaseTimeout":
+        raise e
+
+
 def gen_cases(tier, seed):
     quick = tier == "quick"
     kinds = list(D.NAME_KINDS)
@@ -317,6 +323,7 @@ def check_static(case, rec):
                     else:
                         ro = Ranking([frozenset(b) for b in r])
                 except Exception as e:                      # noqa: BLE001
+                    passthrough(e)
                     rec.add("C16.ranking.inv", "Ranking(...) raises", dict(ctx, ranking=r, exception=raise_text(e)))
                     continue
                 rec.ranking(ro, "C16.ranking.inv", "Ranking(...)", dict(ctx, how=how))
@@ -326,6 +333,7 @@ def check_static(case, rec):
                 try:
                     ro = Ranking.from_string(txt)
                 except Exception as e:                      # noqa: BLE001
+                    passthrough(e)
                     rec.add("C16.ranking.inv", "Ranking.from_string raises", dict(ctx, text=txt, exception=raise_text(e)))
                     continue
                 rec.ranking(ro, "C16.ranking.inv", "Ranking.from_string", dict(ctx, text=txt))
@@ -339,6 +347,7 @@ def check_static(case, rec):
                 else:
                     d = Dataset.from_raw_list([[set(b) for b in r] for r in spec], name="nm")
             except Exception as e:                          # noqa: BLE001
+                passthrough(e)
                 rec.add("C16.prop", how + " raises", dict(ctx, exception=raise_text(e)))
                 continue
             rec.dataset(d, how, ctx)
@@ -356,6 +365,7 @@ def check_static(case, rec):
                 rec.ranking(r, "C16.unified.inv", "Dataset.unified_rankings", dict(ctx, index=i))
             rec.content(ur, exp_uni, "Dataset.unified_rankings", ctx)
         except Exception as e:                              # noqa: BLE001
+            passthrough(e)
             rec.add("C16.prop", "Dataset.unified_rankings raises", dict(ctx, exception=raise_text(e)))
         try:
             ud = ds.unified_dataset()
@@ -364,6 +374,7 @@ def check_static(case, rec):
             if not ud.is_complete:
                 rec.add("C16.flags", "Dataset.unified_dataset", dict(ctx, problem="unified dataset not flagged complete"))
         except Exception as e:                              # noqa: BLE001
+            passthrough(e)
             rec.add("C16.prop", "Dataset.unified_dataset raises", dict(ctx, exception=raise_text(e)))
         # the dataset itself must still be consistent (unification works on copies)
         rec.dataset(ds, "Dataset(...) after unified_rankings", ctx)
@@ -372,7 +383,8 @@ def check_static(case, rec):
         su = sort_universe(uni)
         try:
             ids = dict((tv(e)[1], i) for e, i in ds.mapping_elem_id.items())
-        except Exception:                                   # noqa: BLE001
+        except Exception as e:                                   # noqa: BLE001
+            passthrough(e)
             ids = {}
         subsets = [c for k in range(0, len(su) + 1) for c in itertools.combinations(su, k)]
         if "max_proj" in case and len(subsets) > case["max_proj"]:
@@ -407,6 +419,7 @@ def check_static(case, rec):
                                                                       "the kept set" % len(proj)))
                     continue
                 except Exception as e:                      # noqa: BLE001
+                    passthrough(e)
                     rec.add("C16.prop", site + " raises", dict(pctx, exception=raise_text(e)))
                     continue
                 if not proj:
@@ -490,6 +503,7 @@ def check_seq(case, rec):
                 try:
                     d = Dataset([Ranking([set(b) for b in r]) for r in spec])
                 except Exception as e:                      # noqa: BLE001
+                    passthrough(e)
                     rec.add("C16.prop", "Dataset(...) raises", dict(ctx, exception=raise_text(e)))
                     break
                 ok = True
@@ -509,6 +523,7 @@ def check_seq(case, rec):
                                     dict(ctx, problem="EmptyDatasetException although elements remain", before=before))
                         break
                     except Exception as e:                  # noqa: BLE001
+                        passthrough(e)
                         ok = False
                         dead.add(seq[:i + 1])
                         if i == k - 1:
@@ -544,6 +559,7 @@ def check_gen(case, rec):
                     for r in rs:
                         rec.ranking(r, "C16.ranking.inv", "Ranking.generate_rankings", ctx)
                 except Exception as e:                      # noqa: BLE001
+                    passthrough(e)
                     rec.add("C16.ranking.inv", "Ranking.generate_rankings raises", dict(ctx, exception=raise_text(e)))
                 random.seed(sd * 1000 + steps + 1)
                 try:
@@ -555,6 +571,7 @@ def check_gen(case, rec):
                         rec.add("C16.prop", "Dataset.get_random_dataset_markov raises",
                                 dict(ctx, problem="EmptyDatasetException in complete mode"))
                 except Exception as e:                      # noqa: BLE001
+                    passthrough(e)
                     rec.add("C16.prop", "Dataset.get_random_dataset_markov raises", dict(ctx, exception=raise_text(e)))
         ctx = {"n": n, "m": m, "seed": sd}
         random.seed(sd)
@@ -565,6 +582,7 @@ def check_gen(case, rec):
             rec.dataset(d, "Dataset.get_uniform_permutation_dataset", ctx)
             rec.nk += 1
         except Exception as e:                              # noqa: BLE001
+            passthrough(e)
             rec.add("C16.prop", "uniform permutations raise", dict(ctx, exception=raise_text(e)))
 
 
@@ -582,6 +600,7 @@ def check_algos(case, rec):
                     cons = algs.make(name).compute_consensus_rankings(ds, sc, False)
                 rks = list(cons.consensus_rankings)
             except Exception as e:                          # noqa: BLE001
+                passthrough(e)
                 rec.add("C16.prop", "consensus ranking: %s raises" % name, dict(ctx, exception=raise_text(e)))
                 continue
             for r in rks:
